@@ -1,0 +1,18 @@
+//go:build verif
+
+package revocation
+
+import (
+	"github.com/gr33nbl00d/caddy-revocation-validator/crl"
+	"github.com/gr33nbl00d/caddy-revocation-validator/ocsp"
+)
+
+// VerifCRLChecker exposes the CRL checker to the verification harness.
+func (c *CertRevocationValidator) VerifCRLChecker() *crl.CRLRevocationChecker {
+	return c.crlRevocationChecker
+}
+
+// VerifOCSPChecker exposes the OCSP checker to the verification harness.
+func (c *CertRevocationValidator) VerifOCSPChecker() *ocsp.OCSPRevocationChecker {
+	return c.ocspRevocationChecker
+}
